@@ -5,6 +5,11 @@
 (* outside the stated bound and only counted) or the returned configurations projected to  *)
 (* scalars.  TLC checks every returned field against its documented domain                  *)
 (* (CodecFeaturesOps + the enumerations extracted from vc2_data_tables).                    *)
+(* Every event also carries "given": for each column of the text that has at least one     *)
+(* non-empty value cell (the driver's own reading of the text it wrote), whether it has an *)
+(* explicit name and which.  An accepted text must return one configuration per such       *)
+(* column (two columns that end up with one name cannot both be returned: the names would  *)
+(* not be unique), in column order, explicitly named columns under their names.             *)
 EXTENDS CodecFeaturesOps, CodecFeaturesTables, Json, IOUtils, TLC, TLCExt
 
 Log == ndJsonDeserialize(IOEnv.TRACE_FILE)
@@ -32,6 +37,11 @@ ColQmOk(col)    == col.qm_none \/
 NamesOk(e)      == /\ \A i, j \in 1..Len(e.cols) : i # j => e.cols[i].name # e.cols[j].name
                    /\ Len(e.keys) = Len(e.cols) /\ \A i \in 1..Len(e.cols) : e.keys[i] = e.cols[i].name
 
+\* one configuration per non-empty column of the text: nothing dropped, merged or invented
+PerColumnOk(e)  == Len(e.cols) = Len(e.given)
+\* explicitly named columns are returned under their (stripped) names, in column order
+GivenNamesOk(e) == \A i \in 1..Len(e.given) : e.given[i].named => e.cols[i].name = e.given[i].name
+
 FirstBad(e, P(_)) == \E i \in 1..Len(e.cols) : ~P(e.cols[i])
 
 Clause(e) ==
@@ -46,6 +56,8 @@ Clause(e) ==
   ELSE IF FirstBad(e, ColPbOk)               THEN [c |-> "PictureBytesIffLossy", alarm |-> TRUE]
   ELSE IF FirstBad(e, ColQmOk)               THEN [c |-> "QuantMatrixShape", alarm |-> TRUE]
   ELSE IF ~NamesOk(e)                        THEN [c |-> "UniqueNames", alarm |-> TRUE]
+  ELSE IF ~PerColumnOk(e)                    THEN [c |-> "OneConfigurationPerColumn", alarm |-> TRUE]
+  ELSE IF ~GivenNamesOk(e)                   THEN [c |-> "ExplicitNames", alarm |-> FALSE]
   ELSE IF e.pred = "invalid"                 THEN [c |-> "Prediction(invalid,got ok)", alarm |-> FALSE]
   ELSE [c |-> "ok", alarm |-> FALSE]
 
